@@ -414,19 +414,80 @@ func runConc(c Case, dirs []string, dbs []*nutsdb.DB, backupRoot string) concRes
 	}
 	done := make(chan struct{})
 	go func() { wg.Wait(); close(done) }()
-	select {
-	case <-done:
-	case <-time.After(60 * time.Second):
-		buf := make([]byte, 1<<20)
-		n := runtime.Stack(buf, true)
-		dump := string(buf[:n])
-		if strings.Contains(dump, "sync.(*RWMutex)") || strings.Contains(dump, "sync.runtime_Semacquire") {
-			res.Deadlock = dump
-		} else {
-			res.Deadlock = "TIMEOUT-NOT-A-LOCK-WAIT\n" + dump
+	// Watchdog. A workload normally takes milliseconds. After 60 s the goroutine dump is examined: it is a
+	// deadlock only if, in two samples 5 s apart, every goroutine that is inside nutsdb or inside a worker
+	// is parked on a lock; as long as one of them is running, runnable or in a system call the workload is
+	// merely slow (loaded machine) and gets up to 15 minutes before the run is declared inconclusive.
+	deadline := time.Now().Add(15 * time.Minute)
+	wait := 60 * time.Second
+	stuck := 0
+loop:
+	for {
+		select {
+		case <-done:
+			break loop
+		case <-time.After(wait):
+			dump := allStacks()
+			if allWorkersParkedOnLocks(dump) {
+				stuck++
+				if stuck >= 2 {
+					res.Deadlock = dump
+					break loop
+				}
+				wait = 5 * time.Second
+				continue
+			}
+			stuck = 0
+			wait = 20 * time.Second
+			if time.Now().After(deadline) {
+				res.Deadlock = "TIMEOUT-NOT-A-LOCK-WAIT\n" + dump
+				break loop
+			}
+		}
+	}
+	if res.Deadlock != "" {
+		if p := os.Getenv("VERIF_FAIL"); p != "" {
+			_ = os.WriteFile(p+".goroutines.txt", []byte(res.Deadlock), 0o644)
 		}
 	}
 	return res
+}
+
+func allStacks() string {
+	buf := make([]byte, 8<<20)
+	n := runtime.Stack(buf, true)
+	return string(buf[:n])
+}
+
+// allWorkersParkedOnLocks reports whether every goroutine of the dump that is executing library code or a
+// worker of the concurrent engine is waiting for a mutex (and at least one such goroutine exists).
+func allWorkersParkedOnLocks(dump string) bool {
+	relevant, parked := 0, 0
+	for _, g := range strings.Split(dump, "\n\n") {
+		if !strings.HasPrefix(g, "goroutine ") {
+			continue
+		}
+		if !strings.Contains(g, "github.com/xujiajun/nutsdb") && !strings.Contains(g, "props.runConc.func") {
+			continue
+		}
+		if strings.Contains(g, "props.allStacks") {
+			continue // the watchdog itself
+		}
+		relevant++
+		hdr := g
+		if i := strings.Index(g, "\n"); i >= 0 {
+			hdr = g[:i]
+		}
+		state := ""
+		if i := strings.Index(hdr, "["); i >= 0 {
+			state = hdr[i+1:]
+		}
+		lockWait := strings.HasPrefix(state, "sync.RWMutex") || strings.HasPrefix(state, "sync.Mutex") || strings.HasPrefix(state, "semacquire") || strings.HasPrefix(state, "sync.WaitGroup")
+		if lockWait {
+			parked++
+		}
+	}
+	return relevant > 0 && parked == relevant
 }
 
 // checkConc verifies the history of one database.
